@@ -283,6 +283,14 @@ def run(e: Engine, rep: Report):
              'RCPT / DATA that may follow')
     rep.tables.add('c07.ENVELOPE_FORGETTERS')
     r718(e, rep)
+    rep.rule('R7.19', 'the session-end signal reaches the main loop: '
+             'StopIteration is what ends the session (closing reply codes, '
+             'QUIT, a lost reader), and it is raised only where a plain call '
+             'chain leads back to handle() - never inside a generator '
+             '(a @contextmanager helper, a yielding wrapper), where PEP 479 '
+             'turns it into RuntimeError and the session dies with a 421 '
+             'instead of the reply it had sent')
+    r719(e, rep)
     rep.floor('R7.1', 10, 'callback sites')
     rep.floor('R7.3', 12, 'command handlers')
     rep.floor('R7.4', 10, 'mutable reply sends')
@@ -1570,3 +1578,87 @@ def r716(e: Engine, rep: Report):
                       reason='a Reply made in this call (or a copy)')
     if n < 8:
         rep.error('anchor vanished: callback sites in Server (%d < 8)' % n)
+
+
+# ------------------------------------------------------------------ R7.19
+def r719(e: Engine, rep: Report):
+    srv = e.p.cls(SERVER)
+
+    def raises_stop(fn):
+        for x in walk_own(fn.node):
+            if isinstance(x, ast.Raise) and x.exc is not None:
+                t = x.exc.func if isinstance(x.exc, ast.Call) else x.exc
+                if isinstance(t, ast.Name) and t.id == 'StopIteration':
+                    return x
+        return None
+    stoppers = {nm: raises_stop(m) for nm, m in srv.methods.items()}
+    stoppers = {nm: x for nm, x in stoppers.items() if x is not None}
+    if not stoppers:
+        rep.error('anchor vanished: no method of Server raises StopIteration')
+        return
+    # closure over self-calls (a try arm that catches it stops the spread)
+    may = dict((nm, 'raises it') for nm in stoppers)
+
+    def catches(fn, call):
+        for t in walk_own(fn.node):
+            if isinstance(t, ast.Try) and any(
+                    call in ast.walk(b) for b in t.body) and any(
+                    h.type is None or 'StopIteration' in ast.unparse(h.type)
+                    or ast.unparse(h.type) in ('Exception', 'BaseException')
+                    for h in t.handlers):
+                return True
+        return False
+    changed = True
+    while changed:
+        changed = False
+        for nm, m in srv.methods.items():
+            if nm in may:
+                continue
+            for c in walk_own(m.node):
+                if isinstance(c, ast.Call) and \
+                        isinstance(c.func, ast.Attribute) and \
+                        isinstance(c.func.value, ast.Name) and \
+                        c.func.value.id == 'self' and c.func.attr in may \
+                        and not catches(m, c):
+                    may[nm] = 'calls %s' % c.func.attr
+                    changed = True
+                    break
+    n = 0
+    for nm, m in sorted(srv.methods.items()):
+        gen = any(isinstance(x, (ast.Yield, ast.YieldFrom))
+                  for x in walk_own(m.node))
+        if not gen:
+            continue
+        n += 1
+        rep.evaluations += 1
+        rep.functions.add(m.qname)
+        why = None
+        at = None
+        if nm in stoppers:
+            why, at = 'raises StopIteration', stoppers[nm]
+        else:
+            for c in walk_own(m.node):
+                if isinstance(c, ast.Call) and \
+                        isinstance(c.func, ast.Attribute) and \
+                        isinstance(c.func.value, ast.Name) and \
+                        c.func.value.id == 'self' and c.func.attr in may \
+                        and not catches(m, c):
+                    why, at = 'calls self.%s, which %s' % (
+                        c.func.attr, may[c.func.attr]), c
+                    break
+        rep.check(why is None, 'R7.19', m.qname,
+                  'generator `%s` cannot see the session-end signal' % nm,
+                  '`%s` is a generator (it yields) and %s: a StopIteration '
+                  'that leaves the body of a generator is turned into '
+                  'RuntimeError (PEP 479), so the closing reply the server '
+                  'has just sent (221, 421, 5xx with a close code) is '
+                  'followed by the catch-all of handle() - the client gets a '
+                  'second, unsolicited 421 and the session state is not '
+                  'what the reply said' % (nm, why),
+                  loc=m.loc(at) if at is not None else m.loc(),
+                  reason='no raise / call of %s in it' % sorted(may)[:6])
+    rep.evaluations += 1
+    rep.ok('R7.19', SERVER, '%d method(s) raise StopIteration directly, %d '
+           'may pass it on; %d generator method(s)' % (
+               len(stoppers), len(may), n),
+           reason='judged one by one', nontrivial=False)
